@@ -463,18 +463,71 @@ func TestRandomFunctionTables(t *testing.T) {
 	})
 }
 
+// TestDeepNesting: the offending call under n enclosing constructs (calls, list literals, map literals,
+// parentheses, index expressions), n from 1 to 48: rejected, and the error still points at the offender.
+func TestDeepNesting(t *testing.T) {
+	v2fns := sem.V2Fns()
+	n := 0
+	offenders := []func() *gen.Node{
+		func() *gen.Node { return gen.NCall("nosuch") },
+		func() *gen.Node { return gen.NCall("pval") },
+		func() *gen.Node { return gen.NCall("pval", i64(1), i64(2)) },
+	}
+	for depth := 1; depth <= 48; depth++ {
+		for wi := 0; wi < 5; wi++ {
+			for oi, mk := range offenders {
+				off := mk()
+				e := off
+				for d := 0; d < depth; d++ {
+					kind := wi
+					if wi == 4 {
+						kind = d % 4
+					}
+					switch kind {
+					case 0:
+						e = gen.NCall("pval", e)
+					case 1:
+						e = gen.NList(i64(0), e)
+					case 2:
+						e = gen.NMap(str("k"), e)
+					default:
+						e = gen.NParen(e)
+					}
+				}
+				prog := gen.FixAll([]*gen.Node{gen.NSet("a", i64(1)), gen.NSet("x", e), gen.NCall("probe", str("end"), id("x"))})
+				src := gen.Print(prog, gen.Minimal{})
+				span := [2]int{off.P.Start, off.P.End}
+				if span[0] < 0 || span[1] <= span[0] {
+					at := strings.Index(src, off.Name+"(")
+					span = [2]int{at, at + len(off.Name) + 1}
+				}
+				rp := replay{Src: src, Offender: fmt.Sprintf("%s under %d enclosing constructs (kind %d)", off.Name, depth, wi), Span: span, Expect: "rejected"}
+				err, crash := loadV1(src)
+				checkRejected(t, "deep", rp, "v1", err, crash, span)
+				rp.V2 = true
+				err, crash = loadV2(src, v2fns)
+				checkRejected(t, "deep", rp, "v2", err, crash, span)
+				evid.Case(fmt.Sprintf("deep/%d/%d/%d", depth, wi, oi), depth >= 3, "deep-nesting")
+				n++
+			}
+		}
+	}
+	evid.Exhaustive("offender x enclosing construct kind x nesting depth 1..48, v1 and v2", n)
+}
+
 // TestSameTextOtherTable: the verdict on a text depends on the function tables it is loaded with - the same
 // name and text loaded under a table that lacks a function the text calls is rejected, whatever was loaded before.
 func TestSameTextOtherTable(t *testing.T) {
-	less := func(drop string) (map[string]plrt.FuncCall, map[string]plrt.FuncCheck) {
+	// which: 0 = absent from both tables, 1 = absent from the call table only, 2 = absent from the check table only
+	less := func(drop string, which int) (map[string]plrt.FuncCall, map[string]plrt.FuncCheck) {
 		c, k := map[string]plrt.FuncCall{}, map[string]plrt.FuncCheck{}
 		for n, f := range call1 {
-			if n != drop {
+			if n != drop || which == 2 {
 				c[n] = f
 			}
 		}
 		for n, f := range check1 {
-			if n != drop {
+			if n != drop || which == 1 {
 				k[n] = f
 			}
 		}
@@ -496,7 +549,8 @@ func TestSameTextOtherTable(t *testing.T) {
 		src := gen.Print(gen.CloneProg(base), gen.Minimal{})
 		at := strings.Index(src, drop+"(")
 		span := [2]int{at, len(src)}
-		lc, lk := less(drop)
+		which := rapid.IntRange(0, 2).Draw(t, "absent-from")
+		lc, lk := less(drop, which)
 		order := rapid.IntRange(0, 2).Draw(t, "order")
 		full := func(when string) {
 			if _, err, crash := impl.Load1("c08.p", src, call1, check1); err != nil || crash != nil {
@@ -505,7 +559,7 @@ func TestSameTextOtherTable(t *testing.T) {
 		}
 		lacking := func(when string) {
 			_, err, crash := impl.Load1("c08.p", src, lc, lk)
-			checkRejected(t, "other-table", replay{Src: src, Offender: drop + " not registered (" + when + ")", Span: span, Expect: "rejected", Table: "builtins without " + drop}, "v1[tables without "+drop+", "+when+"]", err, crash, span)
+			checkRejected(t, "other-table", replay{Src: src, Offender: drop + " not registered (" + when + ")", Span: span, Expect: "rejected", Table: "builtins without " + drop + []string{"", " in the call table", " in the check table"}[which]}, "v1[tables without "+drop+[]string{"", " in the call table", " in the check table"}[which]+", "+when+"]", err, crash, span)
 		}
 		switch order {
 		case 0:
@@ -533,7 +587,7 @@ func TestSameTextOtherTable(t *testing.T) {
 		delete(fn, "pval")
 		err, crash := loadV2(src2, fn)
 		checkRejected(t, "other-table", replay{Src: src2, V2: true, Offender: "pval not registered", Span: [2]int{4, 11}, Expect: "rejected", Table: "probes without pval"}, "v2[table without pval]", err, crash, [2]int{4, 11})
-		evid.Case(fmt.Sprintf("other-table/%s/%d/%d", drop, order, len(src)), true, "same-text-other-table")
+		evid.Case(fmt.Sprintf("other-table/%s/%d/%d/%d", drop, order, which, len(src)), true, "same-text-other-table", fmt.Sprintf("absent-from/%d", which))
 	})
 }
 
